@@ -160,3 +160,61 @@ def check_copy(ctx, db, rule, label, loc, rec_t, stmt, dst_key, src_key, exempt=
         ctx.check(bad is None, rule, key, loc, 'field `%s` copied%s' % ('|'.join(names), ' through its copier' if any(owns_heap(db, t) for _, t in members) else ''),
                   'owning field `%s` is copied by plain assignment from the source (aliases the source storage)' % bad)
     return n
+
+
+def _scalar_type(t):
+    t = t.replace('const ', '').replace('gdstk::', '').strip()
+    return t in ('bool', 'int', 'double', 'float', 'uint8_t', 'uint16_t', 'uint32_t', 'uint64_t', 'int16_t', 'int32_t', 'int64_t', 'unsigned long', 'long', 'unsigned int', 'Tag', 'size_t') or \
+        t in ('ReferenceType', 'RepetitionType', 'EndType', 'JoinType', 'BendType', 'Anchor', 'PropertyType', 'InterpolationType', 'SubPathType', 'ErrorCode')
+
+
+def check_destination_reads(ctx, fn, rule='R-COPY.read-before-write', label=None):
+    """In a copy_from method the destination's own fields are outputs: a scalar field of `this` that is READ must have been
+    written earlier on every path (dominating assignment). Reading e.g. the destination's tag to choose which union member to
+    copy uses whatever the destination held before (a zeroed object reads as the first enumerator)."""
+    from .flow import lvalue_key, is_assign, _strip_casts
+    if fn.body is None:
+        return 0
+    g = fn.cfg
+    writes = {}
+    for x in fn.walk():
+        if is_assign(x) and x.op == '=':
+            lhs = x.args[0] if x.k == 'CXXOperatorCallExpr' else x.child('lhs')
+            k = lvalue_key(_strip_casts(lhs))
+            if k and k.startswith('this->'):
+                writes.setdefault(k.split('.')[0].split('[')[0], []).append(x)
+    n = 0
+    bad = []
+    for m in fn.walk():
+        if m.k != 'MemberExpr' or not m.n or m.child('base') is None or _strip_casts(m.child('base')).k != 'CXXThisExpr':
+            continue
+        p = m.parent
+        if p is None:
+            continue
+        # a read of the field's value: not the target of a store, not a sub-object access, not a method call on it, not its address
+        if (is_assign(p) and p.op == '=' and ((p.args[0] if p.k == 'CXXOperatorCallExpr' else p.child('lhs')) is m)) or p.k in ('MemberExpr', 'CXXMemberCallExpr', 'CXXOperatorCallExpr') or \
+                (p.k == 'UnaryOperator' and p.op == '&') or (p.k in ('CallExpr',) and '&' in (m.t or '')):
+            continue
+        t = (m.t or '')
+        if not (t.endswith('*') or _scalar_type(t)):
+            continue
+        if t.endswith('*'):
+            # releasing what the destination held before it is overwritten is not a dependence of the copy on it:
+            # `if (p) free_allocation(p); p = ...`
+            q = m.parent
+            while q is not None and q.k in ('ImplicitCastExpr', 'CStyleCastExpr'):
+                q = q.parent
+            if q is not None and q.k == 'CallExpr' and (q.callee or '').split('::')[-1] in ('free_allocation', 'free'):
+                continue
+            if q is not None and q.k == 'IfStmt' and q.child('else') is None and all(
+                    y.k in ('CallExpr',) and (y.callee or '').split('::')[-1] in ('free_allocation', 'free') or y.k not in ('CallExpr', 'CXXMemberCallExpr', 'BinaryOperator', 'CompoundAssignOperator')
+                    for y in q.child('then').walk()):
+                continue
+        n += 1
+        key = 'this->' + m.n
+        if not any(w.id < m.id and g.node_dominates(w, m) for w in writes.get(key, [])):
+            bad.append(m)
+    lab = label or fn.qn.replace('gdstk::', '')
+    ctx.check(not bad, rule, lab + '/destination-fields', bad[0].loc() if bad else fn.loc(), 'every field of the destination that is read (%d reads) was assigned earlier on every path' % n,
+              'field `%s` of the destination is read at %s before it is assigned: the copy depends on what the destination held before (a zeroed destination reads as 0 / the first enumerator)' % (bad[0].n if bad else '', bad[0].loc() if bad else ''))
+    return 1
